@@ -24,6 +24,9 @@ keyword vs positional arguments or on whether a sub-expression has a name.
             received, the reference is max(the three timestamps), a phase behind it is received again from
             its own receiver until it is not (drain loop; an aligned phase is not touched), and the sample
             sent takes value k from phase k's final sample and its timestamp from those samples.
+  C06.NAME  the synchronisation finds the stream behind a finished fetch task through `task.get_name()` and
+            `self._metric_fetchers[<that name>]`: apply() must have created the task of the fetcher stored under
+            key K with `name=K` (the two cooperating sites agree on what identifies a stream).
   C06.TOTAL no step's apply() can raise (shared with C13.TOTAL): FormulaEngine._run drops the round on any
             exception after every input was consumed, i.e. the timestamp would be skipped.
 
@@ -377,6 +380,68 @@ def check_all(run: Run, prog: Program, rnd: Round) -> None:
         others += [c for c in ast.walk(h.node) if isinstance(c, ast.Call) and _is_fetch_call(c)]
     run.check(not others, "C06.ONE", fn.qual, "no extra fetch in a steady-state round",
               "apply() fetches an input a second time within one round", node=fn.node, file=fn.file)
+
+
+
+def check_names(run: Run, prog: Program, rnd: Round) -> None:
+    """C06.NAME: how a finished fetch task is mapped back to its stream.  The first-run synchronisation (and the
+    re-synchronisation of diverged inputs) reads `task.get_name()` and advances `self._metric_fetchers[name]`; that
+    is only the task's own stream if apply() named the task with the very key its fetcher is stored under."""
+    fn, fl = rnd.raw, rnd.fl
+    cls = prog.cls(FE)
+    users = [(m, c) for m in cls.methods.values() for c in find_calls(m.node, lambda c: method_call(c, None, "get_name") and not c.args)]
+    tasks = [(nid, c) for nid, c in fl.calls(lambda c: u(c.func).endswith("create_task") or u(c.func).endswith("ensure_future")
+                                             or (isinstance(c.func, ast.Attribute) and c.func.attr == "Task"))
+             if any(isinstance(x, ast.Call) and _is_fetch_call(x) for a in c.args for x in ast.walk(a))]
+    if not users:
+        run.ok("C06.NAME", f"{cls.qual}: finished fetch tasks are not identified by their task name")
+        return
+    if not tasks:
+        raise AnalysisError(f"{fn.qual}: the synchronisation identifies streams by task name, but no task-creating call wraps fetch_next()")
+    TABLE = "self._metric_fetchers"
+
+    def table_iter(o: Org) -> str | None:
+        """'items' / 'values' / 'keys' when the origin is an element of a walk over the fetcher table."""
+        if o.kind != "iter" or o.node is None:
+            return None
+        t = u(o.node)
+        return {f"{TABLE}.items()": "items", f"{TABLE}.values()": "values", f"{TABLE}.keys()": "keys", TABLE: "keys"}.get(t)
+
+    for nid, c in tasks:
+        coro = next(x for a in c.args for x in ast.walk(a) if isinstance(x, ast.Call) and _is_fetch_call(x))
+        holder = coro.func.value  # type: ignore[union-attr]
+        kw = next((k.value for k in c.keywords if k.arg == "name"), None)
+        f_org = fl.origin(holder, nid)
+        why = ""
+        if kw is None:
+            named_later = fl.calls(lambda k: method_call(k, None, "set_name"))
+            if named_later:
+                raise AnalysisError(f"{fn.qual}: fetch tasks are named through set_name(): idiom not modelled")
+            why = "the task is created without a name (asyncio then calls it 'Task-<n>')"
+        else:
+            n_org = fl.origin(kw, nid)
+            good = bool(n_org) and bool(f_org)
+            for no in n_org:
+                kind = table_iter(no)
+                if kind == "items" and no.idx == 0:
+                    good = good and all(table_iter(fo) == "items" and fo.idx == 1 and fo.node is no.node for fo in f_org)
+                elif kind == "keys" and no.idx is None:
+                    # `for k in table: create_task(table[k].fetch_next(), name=k)`
+                    good = good and all(fo.kind == "expr" and isinstance(fo.node, ast.Subscript) and u(fo.node.value) == TABLE
+                                        and all(q.kind == "iter" and q.node is no.node for q in fo.flow.origin(fo.node.slice, fo.nid)) for fo in f_org)
+                else:
+                    good = False
+            if not good:
+                why = (f"the task is named `{u(kw)}`, which is not the key its fetcher `{u(holder)}` is stored under in {TABLE} "
+                       "(a decorated name, the fetcher's own attribute, a constant or another entry's key do not identify the entry)")
+        where = ", ".join(sorted({m.name for m, _c in users}))
+        run.check(not why, "C06.NAME", fn.qual, "create_task(<fetcher K>.fetch_next(), name=K)",
+                  f"{why}, while {where}() finds the stream behind a finished task through `task.get_name()` and advances "
+                  f"`{TABLE}[<that name>]`: as soon as one group of inputs lags (any start-up skew, or inputs that diverged later) "
+                  "the lookup raises KeyError -- or drains ANOTHER input's stream -- FormulaEngine._run drops the round, the inputs "
+                  "stay exactly as skewed and every following round fails the same way: no sample is ever emitted although all "
+                  "inputs are available.  With lock-step inputs the names are only collected, never looked up, so nothing shows",
+                  node=c, file=fn.file, instance=f"{fn.qual}: `{u(c)[:70]}` named with its fetcher's key")
 
 
 def fetch_unit(prog: Program) -> Any:
@@ -1219,6 +1284,15 @@ def build_controls(prog: Program) -> list[tuple[str, str, str, str, str]]:
                 add("FIRST_COMPLETED", EVAL, stmt_patch(m, w, lambda t, txt=txt: t.replace(
                     txt, txt.rstrip()[:-1].rstrip().rstrip(",") + ", return_when=asyncio.FIRST_COMPLETED)", 1)), "C06.ALL")
             break
+    # NAME: the fetch tasks lose their names
+    for m in ev.methods.values():
+        ts_ = calls_in(m, lambda c: u(c.func).endswith("create_task") and any(k.arg == "name" for k in c.keywords) and len(c.args) == 1)
+        if ts_:
+            c = ts_[0]
+            txt = seg(m.module, c)
+            bare = f"{seg(m.module, c.func)}({seg(m.module, c.args[0])})"
+            add("fetch tasks created without a name", EVAL, stmt_patch(m, c, lambda t, txt=txt, bare=bare: t.replace(txt, bare, 1)), "C06.NAME")
+            break
     # SYNC: `<` -> `<=` (resp. `>` -> `>=`) in the drain loop test
     for sy, w in ((m, x) for m in ev.methods.values() for x in ast.walk(m.node)
                   if isinstance(x, ast.While) and isinstance(x.test, ast.Compare) and len(x.test.ops) == 1):
@@ -1366,7 +1440,7 @@ def build_controls(prog: Program) -> list[tuple[str, str, str, str, str]]:
         add("Divider raises on a zero divisor", STEPS, stmt_patch(dv, x, lambda t, txt=txt, keep=keep: t.replace(txt, keep, 1)), "C06.TOTAL")
         break
     if len(out) < 6:
-        raise AnalysisError(f"C06: only {len(out)} of 17 seeded controls could be derived from the source ({[o[0] for o in out]})")
+        raise AnalysisError(f"C06: only {len(out)} of 18 seeded controls could be derived from the source ({[o[0] for o in out]})")
     return out
 
 
@@ -1383,6 +1457,7 @@ def run_rules(run: Run, prog: Program) -> None:
         check_all(run, prog, rnd)
         check_ts(run, prog, rnd)
         check_emit(run, prog, rnd)
+        check_names(run, prog, rnd)
     check_one(run, prog)
     check_plain_primary(run, prog, "C06.ONE")
     check_sync(run, prog)
@@ -1407,7 +1482,10 @@ def check(run: Run, prog: Program, tier: str) -> str:
              "assertions about delivered samples hold")
     run.rule("C06.TOTAL", "no abstract path of a step's apply() raises: FormulaEngine._run drops the round on any exception, "
              "after one sample was consumed from every input, i.e. the timestamp is skipped (shared with C13.TOTAL)")
+    run.rule("C06.NAME", "a finished fetch task is mapped back to its stream by task name: apply() names the task of the fetcher "
+             "stored under key K with K, the key the synchronisation looks up")
     run_rules(run, prog)
+    run.floor("C06.NAME", 1)
     run.floor("C06.ALL", 3)
     run.floor("C06.ONE", 15)
     run.floor("C06.TS", 4)
